@@ -97,7 +97,7 @@ def gen_cfg(rng: Rng, spec, use_mc=None, origin=None, force_all_mts=False, expli
     if mc:
         expect[mc['port']] = 'MC'
     comp = spec['component']
-    prefix = rng.weighted([(3, None), (1, ['Other']), (1, ['Other', 'Project']), (1, ['a', 'B', 'c9']), (1, ['Other_Project'])])
+    prefix = rng.weighted([(3, None), (1, ['Other']), (1, ['Other', 'Project']), (1, ['a', 'B', 'c9']), (1, ['Other_Project']), (1, ['Acme', 'Dzn'])])
     cfg = {
         'dezyne_filename': rng.choice(['', 'models/', '/abs/path/to/', '../rel/']) + spec['basename'] + rng.choice(['.dzn', '.dzn', '.json', '']),
         'suffix': rng.choice(SUFFIXES),
